@@ -143,7 +143,7 @@ def check(pid, tier, verif_seed, repo, nlanes, replay=None, runs=None, wall_cap=
             harness.append(res)
             continue
         if oc in ("DISCARD", "BUDGET"):
-            k = oc + ": " + str(res.get("msg"))[:70]
+            k = oc + ": " + str(res.get("msg"))[:44]
             agg.setdefault("reasons", {})
             agg["reasons"][k] = agg["reasons"].get(k, 0) + 1
         if tag == "seed":
